@@ -12,9 +12,12 @@ import (
 func init() {
 	register("C18", "Decides structural necessary conditions of 'every component draws temporal shard boundaries at the same instants': "+
 		"(R1) ctfe.ValidateChain, (R2) client.TemporalLogClient.IndexByDate and (R3) loglist3.LogList.TemporallyCompatible are each compared, for every feasible combination of bound presence and of the order of t against start and limit (t<, t=, t>), with the one predicate of the property, inside ⇔ (no start ∨ t ≥ start) ∧ (no limit ∨ t < limit); since all three are compared with the same table they agree pairwise on every instant including the exact boundary values; "+
-		"(R4) the compared operands are the whole time.Time instants (leaf NotAfter of chain[0] / of the parsed first chain entry / of the certificate; the configured bounds) with no truncation or unit conversion in between, the bounds reach the comparison unswapped from the configuration (NotAfterStart→start/lower, NotAfterLimit→limit/upper), and the shard chosen / log kept is the one whose interval was tested; "+
+		"(R2, round 8) in IndexByDate EVERY group of tests that compares the instant with the bounds of one interval intervals[x] — the scan, and a shard remembered from an earlier lookup that is looked at first — obeys that table (hit ⇒ a return of x; miss ⇒ another interval is looked at next, no accepting return before), every accepting return lies behind the tests of the interval whose index it returns, one group is a scan over every element of the list (each turn tests its element, 'no log found' only once the scan has run out), and an index that is not the scan's counter is read from an atomic cell of the client whose stored values are positions of the (never resized) list and whose guards keep the never-written value and negative positions away: so the shard chosen does not depend on earlier lookups; "+
+		"(R4) the compared operands are the whole time.Time instants (leaf NotAfter of chain[0] / of the parsed first chain entry / of the certificate; the configured bounds) with no truncation or unit conversion in between, the bounds reach the comparison unswapped from the configuration (NotAfterStart→start/lower, NotAfterLimit→limit/upper), and the shard chosen / log kept is the one whose interval was tested; (round 8) for the log server this is decided on every value the start / limit field of the CertValidationOpts built by setUpLogInfo / NewCertValidationOpts can hold, followed through field stores, whole-struct copies, constructors and helper results: the configured pointer itself, or — absent ⇔ absent, decided on a nil test of that pointer — a private time.Time whose only content is the configured instant taken over by steps that keep it (value copy, UTC / Local / In, Round / Truncate(≤0)); Truncate, Round, Unix round trips and unknown calls are reported; "+
 		"(R5) construction: shardInterval refuses invalid timestamps and ¬(lower < upper); NewTemporalLogClient refuses an empty list, a shard after an interval without upper bound, a later shard without lower bound and lower ≠ previous upper, and extends the overall span by the new upper bound — or, where the previous shard's interval is read back from the list of intervals (inside the conversion loop or in a pair loop of its own), compares shard i with shard i−1 for every i from 1 to the last shard; ValidateLogConfig refuses limit < start and invalid timestamps. "+
-		"NOT covered: that the X.509 parser yields the right NotAfter; the behaviour of time.Time.Before/After/Equal and timestamppb.AsTime themselves; that IndexByDate's first-match order coincides with 'exactly one shard' is derived from contiguity (R5) plus the table (R2), not checked on concrete shard lists; log lists whose intervals overlap.",
+		"(R6) the bounds are configuration, not a frozen clock: no store anywhere in the module writes a sample of a clock (time.Now / Since / Until / timers, through any helper, parameter or clock interface) that outlives the call that took it into a long-lived cell read by the comparisons of ValidateChain, IndexByDate or TemporallyCompatible (validation options, validated configuration, shard intervals, log-list intervals and whatever feeds them) — rule C02.R10 applied to the three filters. "+
+		"NOT covered: that a remembered shard's hit equals the scan's first match is derived from contiguity (R5) plus the table, not checked on overlapping lists; remembered state in any other form than an index in a sync/atomic cell of the client read through Load (plain or lock-protected fields, remembered bounds) is reported as undecided; the guards on the remembered cell are valuated for sample values (0, −1 and the two values just below the first valid one); a struct whose address is handed to a function that writes its fields is not followed; that the X.509 parser yields the right NotAfter; the behaviour of time.Time.Before/After/Equal and timestamppb.AsTime themselves; that IndexByDate's first-match order coincides with 'exactly one shard' is derived from contiguity (R5) plus the table (R2), not checked on concrete shard lists; log lists whose intervals overlap. "+
+		"Also not covered: that the X.509 parser yields the right NotAfter; the behaviour of time.Time.Before/After/Equal and timestamppb.AsTime themselves; that IndexByDate's first-match order coincides with 'exactly one shard' is derived from contiguity (R5) plus the table (R2), not checked on concrete shard lists; log lists whose intervals overlap.",
 		runC18)
 }
 
@@ -63,31 +66,10 @@ func runC18(r *Run) {
 	// ---- R2: the temporal-shard client's shard choice
 	r.Rule("C18.R2")
 	if fn := r.Fn("(*client.TemporalLogClient).IndexByDate"); fn != nil {
-		succ := func() []ssa.Instruction { return successReturns(fn) }
-		entry := r.CheckWindow(Window{Name: "IndexByDate", Fn: fn, T: "p1", S: "*.lower", L: "*.upper", PresS: "nil?*.lower", PresL: "nil?*.upper", Outcome: loopOutcome(succ)})
+		// one window table per interval looked at (the scan, a remembered shard …), the index returned is that of
+		// the interval tested, the scan runs over the whole list, remembered indices are positions of the list
+		c18IndexByDate(r, fn) // rules_t8c18.go
 		r.Rule("C18.R4")
-		if entry != nil {
-			// the index returned is the index of the interval that was tested
-			for _, ret := range succ() {
-				idx := r.D.D(ret.(*ssa.Return).Results[0])
-				a := r.allocOf(fn, "p0.intervals["+idx+"]")
-				ok := a != ""
-				for _, side := range []string{"lower", "upper"} {
-					for _, op := range r.boundOperands(fn, "p1", "*."+side) {
-						ok = ok && op == "*"+a+"."+side
-					}
-				}
-				r.Check("IndexByDate:index-of-tested-interval", ok, r.Where(ret), "returns index "+idx+"; the bounds compared are those of intervals["+idx+"]")
-			}
-			// no shard matched ⇒ error, never an index
-			for _, ret := range Returns(fn) {
-				if errKind(ret.Results[1]) == "nil" {
-					continue
-				}
-				ok, why := wantErr(false)(r, ret)
-				r.Check("IndexByDate:no-shard⇒error", ok && r.D.D(ret.Results[0]) == "-1", r.Where(ret), "no interval matched: returns "+r.D.D(ret.Results[0])+" with an error "+why)
-			}
-		}
 	}
 	if fn := r.Fn("(*client.TemporalLogClient).addChain"); fn != nil {
 		if c := r.OneCall(fn, "tlc.addChain:IndexByDate", "(*client.TemporalLogClient).IndexByDate"); c != nil {
@@ -133,13 +115,17 @@ func runC18(r *Run) {
 			r.ExpectPointee(fn, "ValidateLogConfig:"+f, "new:trillian/ctfe.ValidatedLogConfig#*."+f, fmt.Sprintf(asTime, f), 1)
 		}
 	}
+	// every value the start / limit field of the options can hold is the configured pointer itself or — absent ⇔
+	// absent — a private copy of the instant it points to, taken over by steps that keep the instant; the options
+	// are followed through whole-struct copies and constructors (rules_t8c18.go)
+	const optsT = "trillian/ctfe.CertValidationOpts"
 	if fn := r.Fn("trillian/ctfe.setUpLogInfo"); fn != nil {
-		r.ExpectStores(fn, "setUpLogInfo:notAfterStart", "&(new:trillian/ctfe.CertValidationOpts#*."+fStart+")", "p1.Validated.NotAfterStart", 1)
-		r.ExpectStores(fn, "setUpLogInfo:notAfterLimit", "&(new:trillian/ctfe.CertValidationOpts#*."+fLimit+")", "p1.Validated.NotAfterLimit", 1)
+		c18ExpectBoundIn(r, fn, "setUpLogInfo:notAfterStart", optsT, fStart, "p1.Validated.NotAfterStart")
+		c18ExpectBoundIn(r, fn, "setUpLogInfo:notAfterLimit", optsT, fLimit, "p1.Validated.NotAfterLimit")
 	}
 	if fn := r.Fn("trillian/ctfe.NewCertValidationOpts"); fn != nil {
-		r.ExpectStores(fn, "NewCertValidationOpts:notAfterStart", "&(new:trillian/ctfe.CertValidationOpts#*."+fStart+")", "p4", 1)
-		r.ExpectStores(fn, "NewCertValidationOpts:notAfterLimit", "&(new:trillian/ctfe.CertValidationOpts#*."+fLimit+")", "p5", 1)
+		c18ExpectBoundIn(r, fn, "NewCertValidationOpts:notAfterStart", optsT, fStart, "p4")
+		c18ExpectBoundIn(r, fn, "NewCertValidationOpts:notAfterLimit", optsT, fLimit, "p5")
 	}
 	if fn := r.Fn("trillian/integration.NotAfterForLog"); fn != nil {
 		c18NotAfterForLog(r, fn)
@@ -179,6 +165,10 @@ func runC18(r *Run) {
 			func(s Sigma, from *ssa.BasicBlock) *Reach { return r.D.Walk(fn, s, from, nil) })
 		r.ErrorsGate(fn, "ValidateLogConfig:invalid-timestamp", "(*timestamppb.Timestamp).CheckValid", 2)
 	}
+
+	// ---- R6: no clock sample is stored into the long-lived bounds these filters compare with (rules_t7c02clock.go)
+	r.Rule("C18.R6")
+	noStaleClock(r, []clkFilter{{"trillian/ctfe.ValidateChain", 3}, {"(*client.TemporalLogClient).IndexByDate", 2}, {"(*loglist3.LogList).TemporallyCompatible", 2}})
 }
 
 func wSliceBase(v ssa.Value) ssa.Value {
